@@ -20,7 +20,11 @@ EXPLANATION = ("T1 proves, relative to a trusted hyper-h2 contract and for every
                "touched for that id only, DATA before response headers / unexpected or malformed HEADERS are connection errors that reach "
                "every open stream once. HttpLayer.event_to_child/_handle_event/make_stream: ReceiveHttp goes to the stream of its id only "
                "(unknown ids are dropped), SendHttp to the handler of its connection only, completions return to the issuing stream, new "
-               "request headers create exactly one stream. The proofs use representative stream ids and a bounded number of waiting "
+               "request headers create exactly one stream. BufferedH2Connection: an operation on stream X reads and writes only X's buffer and X's "
+               "queued trailers and hands frames to hyper-h2 for X only; bytes are conserved in order (wire ++ buffer = old buffer ++ new data), "
+               "never more than the credit, as much as the credit allows on a window update; trailers go out at once when X has nothing buffered "
+               "(whatever other streams have buffered), otherwise strictly after X's data and they end the stream; the END_STREAM flag stays "
+               "with the last byte. The proofs use representative stream ids and a bounded number of waiting "
                "streams/events; frame-level interleavings, segmentation and the real hyper-h2 state machines are covered bounded in T2 "
                "(two plain hyper-h2 peers around the real HttpLayer).")
 ASSUMPTIONS = [
@@ -28,7 +32,7 @@ ASSUMPTIONS = [
     "T1 uses representative ids (client streams 5, 9 open as 1, 3; 21 and 17 waiting, 21 first; 13 new): the code uses ids only as dictionary keys",
     "T1 bounds: <= 2 waiting streams with <= 2 events each; Http2Client._handle_event2 (the h2 I/O) is abstracted to: logs its event, yields scripted commands, changes the open-stream count (+1 on request headers, arbitrary otherwise)",
     "queue invariant (streams wait only while open >= limit) is assumed on entry and proved on exit of every call",
-    "BufferedH2Connection's flow-control buffering is not exercised (T2 bodies are small); h2 PUSH is disabled by mitmproxy",
+    "BufferedH2Connection (send_data, send_trailers, end_stream, reset_stream, stream_window_updated, receive_data) is under T1 contract with the hyper-h2 base class summarised (ghost log of frames, symbolic per-stream credit; send_data beyond the credit is recorded as a violation): data <= one frame (16384) per call, <= 2 buffered chunks, one unrelated stream Y (idle | blocked | blocked with queued trailers); the frame-splitting loop of send_data and the round-robin of connection_window_updated are covered in T2 only (70000-byte bodies, late credit); h2 PUSH is disabled by mitmproxy",
     "T2 observes the order in which requests are handed to the upstream connection with a spy on Http2Client._handle_event (hook completion order decides it, not frame order)",
 ]
 
@@ -670,6 +674,346 @@ def s_make_stream(vc):
     vc.ensure("own_context_fork", len(created) == 1 and created[0].context is not layer.context and created[0].context.client is layer.context.client)
 
 
+# ---------------------------------------------------------------------------------------------
+# BufferedH2Connection (_http_h2.py): per-stream send buffers on top of hyper-h2's flow control.
+# The hyper-h2 base class is summarised: a ghost log of the frames handed to it and symbolic flow-control windows.
+
+BH = "mitmproxy.proxy.layers.http._http_h2:BufferedH2Connection"
+H2C = "h2.connection:H2Connection"
+X, Y = 1, 3   # the stream operated on, and an unrelated concurrent stream (representative ids; used as dictionary keys only)
+MAXFRAME = 16384
+
+
+class H2StreamStub:
+    pass
+
+
+class H2StateStub:
+    pass
+
+
+def mk_chunk(vc, data, end):
+    return vc.construct("mitmproxy.proxy.layers.http._http_h2:SendH2Data", data, end)
+
+
+def mk_buffered(vc, bufs, trailers, x_open=True):
+    """bufs: {sid: [(data, end_stream)]}; trailers: {sid: fields}. Streams X and Y exist at the h2 level (Y open; X open or not)."""
+    import collections
+    import h2.stream
+    items = []
+    for sid, chunks in bufs.items():
+        cs = [mk_chunk(vc, d, e) for d, e in chunks]
+        items.append((sid, vc.deque(cs)))
+    if vc.mode == "sym":
+        from pyvc.libx_http2 import SDefaultDict, fresh_deque
+        sb = SDefaultDict(SConst(fresh_deque), [(lift(k), v) for k, v in items])
+    else:
+        sb = collections.defaultdict(collections.deque, items)
+    SS = h2.stream.StreamState
+    streams = vc.dict([(sid, vc.new("props.C05:H2StreamStub", state_machine=vc.new("props.C05:H2StateStub", state=st)))
+                       for sid, st in ((X, SS.OPEN if x_open else SS.CLOSED), (Y, SS.OPEN))])
+    return vc.new(BH, stream_buffers=sb, stream_trailers=vc.dict(list(trailers.items())), max_outbound_frame_size=MAXFRAME, streams=streams,
+                  outbound_flow_control_window=1)
+
+
+def install_h2_base(vc, win):
+    """Trusted hyper-h2 contract: local_flow_control_window(s) = credit currently available for s; send_data(s, d, end) hands a
+    DATA frame to the wire and consumes len(d) credit (it raises if len(d) exceeds the credit - recorded as `overdraft`);
+    send_headers / reset_stream hand a HEADERS / RST_STREAM frame to the wire. Frames are logged in order."""
+    log, overdraft = [], []
+
+    def window(v, self_, sid):
+        return win[conc(sid)]
+
+    def send_data(v, self_, sid, data, end_stream=False, pad_length=None):
+        k = conc(sid)
+        n = len_(data)
+        if v.branch(n > win[k]) if v.mode == "sym" else n > win[k]:
+            overdraft.append((k, data))
+        win[k] = win[k] - n
+        log.append(("data", k, data, end_stream))
+        return None
+
+    def send_headers(v, self_, sid, headers, end_stream=False, **kw):
+        log.append(("headers", conc(sid), headers, end_stream))
+        return None
+
+    def reset(v, self_, sid, error_code=0):
+        log.append(("reset", conc(sid), error_code, None))
+        return None
+
+    vc.summary(H2C + ".local_flow_control_window", window)
+    vc.summary(H2C + ".send_data", send_data)
+    vc.summary(H2C + ".send_headers", send_headers)
+    vc.summary(H2C + ".reset_stream", reset)
+    return log, overdraft
+
+
+def buf_chunks(vc, conn, sid):
+    """[(data, end_stream)] currently buffered for sid (absent and empty are the same thing)"""
+    d = conn.stream_buffers
+    for k, v in d_items(vc, d):
+        if conc(k) == sid:
+            its = list(v.fields["_items"].items) if isinstance(v, SObj) else list(v)
+            return [(c.data, c.end_stream) if not isinstance(c, SObj) else (c.fields["data"], c.fields["end_stream"]) for c in its]
+    return []
+
+
+def trailers_of(vc, conn, sid):
+    for k, v in d_items(vc, conn.stream_trailers):
+        if conc(k) == sid:
+            return v
+    return None
+
+
+def cat(parts):
+    r = b""
+    for p_ in parts:
+        r = r + p_
+    return r
+
+
+def other_stream_untouched(vc, tag, conn, log, y_chunks, y_trailers):
+    now = buf_chunks(vc, conn, Y)
+    vc.ensure(tag + ".other_stream_buffer_untouched", all_(And(vc.eq(a[0], b_[0]), vc.eq(a[1], b_[1])) for a, b_ in zip(now, y_chunks)) if len(now) == len(y_chunks) else False)
+    vc.ensure(tag + ".other_stream_trailers_untouched", trailers_of(vc, conn, Y) is y_trailers)
+    vc.ensure(tag + ".no_frame_for_other_stream", all(e[1] == X for e in log))
+
+
+def y_state(vc):
+    """the unrelated stream Y: nothing, or flow-control-blocked data, optionally with queued trailers"""
+    y = vc.case("other_stream", ["idle", "blocked", "blocked_with_trailers"])
+    y_chunks = [] if y == "idle" else [(vc.sym_bytes("y_data", MAXFRAME), True if y == "blocked" else False)]
+    y_tr = vc.list([vc.lift((b"y-trailer", b"y"))]) if y == "blocked_with_trailers" else None
+    return y_chunks, y_tr
+
+
+@scenario("BufferedH2Connection.send_data", functions=[BH + ".send_data"], asserts_are_obligations=True)
+def s_buf_send_data(vc):
+    y_chunks, y_tr = y_state(vc)
+    pre_x = vc.case("own_buffer", [0, 1])
+    x_chunks = [(vc.sym_bytes("x_buffered", MAXFRAME), False)] if pre_x else []
+    if pre_x:
+        vc.assume(len_(x_chunks[0][0]) > 0)
+    data = vc.sym_bytes("data", MAXFRAME)
+    end = vc.sym_bool("end_stream")
+    wx = vc.sym_int("window_x", lo=0)
+    win = {X: wx, Y: vc.sym_int("window_y", lo=0)}
+    bufs = {}
+    if x_chunks:
+        bufs[X] = x_chunks
+    if y_chunks:
+        bufs[Y] = y_chunks
+    conn = mk_buffered(vc, bufs, {Y: y_tr} if y_tr is not None else {})
+    log, overdraft = install_h2_base(vc, win)
+    out = vc.call(BH + ".send_data", conn, X, data, end)
+    vc.ensure("no_exception", out.ok)
+    if not out.ok:
+        return
+    vc.ensure("never_beyond_the_window", overdraft == [])
+    other_stream_untouched(vc, "isolation", conn, log, y_chunks, y_tr)
+    now = buf_chunks(vc, conn, X)
+    sent = [e for e in log if e[0] == "data"]
+    vc.ensure("only_data_frames", len(sent) == len(log))
+    # nothing lost, nothing reordered: what went to the wire followed by what is buffered is the old buffer followed by the new data
+    vc.ensure("conservation_in_order", vc.eq(cat([e[2] for e in sent] + [c[0] for c in now]), cat([c[0] for c in x_chunks] + [data])))
+    if pre_x:
+        vc.ensure("behind_buffered_data.queued_at_the_end", len(sent) == 0 and len(now) == 2)
+        if len(now) == 2:
+            vc.ensure("behind_buffered_data.end_flag_kept", vc.eq(now[1][1], end))
+    elif vc.branch(len_(data) <= wx):
+        vc.ensure("fits.sent_now_with_end_flag", And(vc.eq(sent[0][3], end), vc.eq(sent[0][2], data)) if len(sent) == 1 and len(now) == 0 else False)
+    else:
+        vc.ensure("blocked.rest_buffered_with_end_flag", vc.eq(now[0][1], end) if len(now) == 1 else False)
+        vc.ensure("blocked.sent_part_does_not_end_the_stream", all_(vc.eq(e[3], False) for e in sent) if len(sent) <= 1 else False)
+        vc.ensure("blocked.window_used_up", Iff(wx > 0, len(sent) == 1) if vc.mode == "sym" else ((wx > 0) == (len(sent) == 1)))
+
+
+@scenario("BufferedH2Connection.send_trailers_end_reset", functions=[BH + ".send_trailers", BH + ".end_stream", BH + ".reset_stream", BH + ".send_data"], asserts_are_obligations=True)
+def s_buf_trailers(vc):
+    op = vc.case("operation", ["send_trailers", "end_stream", "end_stream_with_trailers_queued", "reset_stream"])
+    y_chunks, y_tr = y_state(vc)
+    pre_x = vc.case("own_buffer", [0, 1])
+    x_chunks = [(vc.sym_bytes("x_buffered", MAXFRAME), False)] if pre_x else []
+    if pre_x:
+        vc.assume(len_(x_chunks[0][0]) > 0)
+    if op == "end_stream_with_trailers_queued" and not pre_x:
+        return  # trailers are only ever queued behind buffered data
+    win = {X: vc.sym_int("window_x", lo=0), Y: vc.sym_int("window_y", lo=0)}
+    bufs = {}
+    if x_chunks:
+        bufs[X] = x_chunks
+    if y_chunks:
+        bufs[Y] = y_chunks
+    tr = vc.list([vc.lift((b"x-trailer", vc.sym_bytes("tv", 8)))])
+    x_tr_pre = tr if op == "end_stream_with_trailers_queued" else None
+    trs = {}
+    if x_tr_pre is not None:
+        trs[X] = x_tr_pre
+    if y_tr is not None:
+        trs[Y] = y_tr
+    conn = mk_buffered(vc, bufs, trs)
+    log, overdraft = install_h2_base(vc, win)
+    if op == "send_trailers":
+        out = vc.call(BH + ".send_trailers", conn, X, tr)
+    elif op == "reset_stream":
+        out = vc.call(BH + ".reset_stream", conn, X, 8)
+    else:
+        out = vc.call(BH + ".end_stream", conn, X)
+    vc.ensure("no_exception", out.ok)
+    if not out.ok:
+        return
+    other_stream_untouched(vc, "isolation", conn, log, y_chunks, y_tr)
+    now = buf_chunks(vc, conn, X)
+    if op == "send_trailers":
+        if pre_x:
+            # strictly after the data that is still waiting for credit
+            vc.ensure("trailers.queued_behind_own_buffered_data", log == [] and trailers_of(vc, conn, X) is tr and len(now) == 1)
+        else:
+            # nothing of this stream is waiting: the trailers go out now and end the stream - whatever other streams have buffered
+            vc.ensure("trailers.sent_now_and_end_the_stream", len(log) == 1 and log[0][0] == "headers" and log[0][2] is tr and vc.eq(log[0][3], True) is not False)
+            if len(log) == 1:
+                vc.ensure("trailers.end_stream_flag", vc.eq(log[0][3], True))
+            vc.ensure("trailers.not_parked", trailers_of(vc, conn, X) is None)
+    elif op == "end_stream":
+        if pre_x:
+            vc.ensure("end.queued_behind_own_buffered_data", And(len_(now[1][0]) == 0, vc.eq(now[1][1], True)) if (log == [] and len(now) == 2) else False)
+        else:
+            vc.ensure("end.sent_now", And(len_(log[0][2]) == 0, vc.eq(log[0][3], True)) if (len(log) == 1 and log[0][0] == "data" and now == []) else False)
+    elif op == "end_stream_with_trailers_queued":
+        vc.ensure("end.left_to_the_queued_trailers", log == [] and len(now) == 1 and trailers_of(vc, conn, X) is tr)
+    else:
+        vc.ensure("reset.own_buffer_dropped_and_stream_reset", now == [] and len(log) == 1 and log[0][0] == "reset")
+
+
+@scenario("BufferedH2Connection.stream_window_updated", functions=[BH + ".stream_window_updated"], asserts_are_obligations=True)
+def s_buf_window(vc):
+    y_chunks, y_tr = y_state(vc)
+    n = vc.case("own_chunks", [1, 2])
+    with_tr = vc.case("own_trailers_queued", [False, True])
+    x_open = vc.case("own_stream_open", [True, False])
+    d = [vc.sym_bytes(f"x{i}", MAXFRAME) for i in range(n)]
+    for x in d:
+        vc.assume(len_(x) > 0)
+    last_end = vc.sym_bool("last_chunk_ends") if not with_tr else False
+    x_chunks = [(d[i], (last_end if i == n - 1 else False)) for i in range(n)]
+    wx0 = vc.sym_int("window_x", lo=0)
+    win = {X: wx0, Y: vc.sym_int("window_y", lo=0)}
+    tr = vc.list([vc.lift((b"x-trailer", b"t"))])
+    bufs = {X: x_chunks}
+    if y_chunks:
+        bufs[Y] = y_chunks
+    trs = {}
+    if with_tr:
+        trs[X] = tr
+    if y_tr is not None:
+        trs[Y] = y_tr
+    conn = mk_buffered(vc, bufs, trs, x_open=x_open)
+    log, overdraft = install_h2_base(vc, win)
+    out = vc.call(BH + ".stream_window_updated", conn, X)
+    vc.ensure("no_exception", out.ok)
+    if not out.ok:
+        return
+    other_stream_untouched(vc, "isolation", conn, log, y_chunks, y_tr)
+    now = buf_chunks(vc, conn, X)
+    if not x_open:
+        vc.ensure("closed_stream.buffer_dropped_nothing_sent", now == [] and log == [] and vc.eq(out.result, False) is not False)
+        return
+    vc.ensure("never_beyond_the_window", overdraft == [])
+    sent = [e for e in log if e[0] == "data"]
+    total = cat(d)
+    sent_bytes = cat([e[2] for e in sent])
+    vc.ensure("conservation_in_order", vc.eq(sent_bytes + cat([c[0] for c in now]), total))
+    # progress: everything the window allows is handed over now (independent of the other stream)
+    want_len = If(wx0 < len_(total), wx0, len_(total))
+    vc.ensure("progress.as_much_as_the_window_allows", len_(sent_bytes) == want_len)
+    vc.ensure("result_says_whether_data_was_sent", Iff(tr_b(vc, out.result), len(sent) > 0))
+    drained = len(now) == 0
+    hdr = [e for e in log if e[0] == "headers"]
+    ends = [e for e in sent if conc_b(e[3]) is not False]
+    if drained:
+        if with_tr:
+            vc.ensure("drained.trailers_after_all_data_end_the_stream", len(hdr) == 1 and log[-1] is hdr[0] and hdr[0][2] is tr and trailers_of(vc, conn, X) is None)
+            vc.ensure("drained.data_frames_do_not_end_the_stream", all_(vc.eq(e[3], False) for e in sent))
+        else:
+            vc.ensure("drained.no_headers_frame", hdr == [])
+            vc.ensure("drained.end_flag_on_last_frame_only", And(all_(vc.eq(e[3], False) for e in sent[:-1]), vc.eq(sent[-1][3], last_end)) if sent else False)
+    else:
+        vc.ensure("partial.stream_not_ended_and_trailers_kept", And(all_(vc.eq(e[3], False) for e in sent), hdr == [], (trailers_of(vc, conn, X) is tr) if with_tr else True))
+        vc.ensure("partial.end_flag_stays_with_the_rest", vc.eq(now[-1][1], last_end))
+
+
+def tr_b(vc, x):
+    return truth(x) if vc.mode == "sym" else bool(x)
+
+
+def conc_b(x):
+    c = x.concrete() if hasattr(x, "concrete") else x
+    return c
+
+
+@scenario("BufferedH2Connection.receive_data", functions=[BH + ".receive_data"], asserts_are_obligations=True)
+def s_buf_receive(vc):
+    """dispatch of what hyper-h2 reports: a stream WINDOW_UPDATE flushes that stream only, a connection-level one (or a changed
+    INITIAL_WINDOW_SIZE) every stream; RST_STREAM drops that stream's buffer only; other events are passed on in order"""
+    import h2.settings
+    kind = vc.case("h2_reports", ["window_update_stream", "window_update_connection", "stream_reset", "settings_window", "settings_other", "connection_terminated", "data"])
+    y_chunks = [(vc.sym_bytes("y_data", 64), True)]
+    x_chunks = [(vc.sym_bytes("x_data", 64), False)]
+    conn = mk_buffered(vc, {X: x_chunks, Y: y_chunks}, {})
+    other = vc.new("h2.events:PingReceived", ping_data=b"12345678")
+    if kind == "window_update_stream":
+        ev = vc.new("h2.events:WindowUpdated", stream_id=X, delta=10)
+    elif kind == "window_update_connection":
+        ev = vc.new("h2.events:WindowUpdated", stream_id=0, delta=10)
+    elif kind == "stream_reset":
+        ev = vc.new("h2.events:StreamReset", stream_id=X, error_code=8, remote_reset=True)
+    elif kind == "settings_window":
+        ev = vc.new("h2.events:RemoteSettingsChanged", changed_settings=vc.dict([(h2.settings.SettingCodes.INITIAL_WINDOW_SIZE, "changed")]))
+    elif kind == "settings_other":
+        ev = vc.new("h2.events:RemoteSettingsChanged", changed_settings=vc.dict([(h2.settings.SettingCodes.MAX_CONCURRENT_STREAMS, "changed")]))
+    elif kind == "connection_terminated":
+        ev = vc.new("h2.events:ConnectionTerminated", error_code=0, last_stream_id=0, additional_data=None)
+    else:
+        ev = vc.new("h2.events:DataReceived", stream_id=X, data=b"d", flow_controlled_length=1, stream_ended=None)
+    flushed = []
+
+    def base_receive(v, self_, data):
+        return v.list([other, ev]) if v.mode == "sym" else [other, ev]
+
+    def swu(v, self_, sid):
+        flushed.append(("stream", conc(sid)))
+        return False
+
+    def cwu(v, self_):
+        flushed.append(("connection",))
+        return None
+
+    vc.summary(H2C + ".receive_data", base_receive)
+    vc.summary(BH + ".stream_window_updated", swu)
+    vc.summary(BH + ".connection_window_updated", cwu)
+    out = vc.call(BH + ".receive_data", conn, vc.sym_bytes("wire", 16))
+    vc.ensure("no_exception", out.ok)
+    if not out.ok:
+        return
+    res = l_items(out.result)
+    bx, by = buf_chunks(vc, conn, X), buf_chunks(vc, conn, Y)
+    if kind.startswith("window_update"):
+        vc.ensure("window_update.consumed_others_passed_on", len(res) == 1 and res[0] is other)
+        vc.ensure("window_update.flushes_exactly_the_credited_scope", flushed == ([("stream", X)] if kind == "window_update_stream" else [("connection",)]))
+        vc.ensure("buffers_untouched_here", len(bx) == 1 and len(by) == 1)
+    else:
+        vc.ensure("passed_on_in_order", len(res) == 2 and res[0] is other and res[1] is ev)
+        if kind == "stream_reset":
+            vc.ensure("reset.only_that_streams_buffer_dropped", bx == [] and len(by) == 1 and flushed == [])
+        elif kind == "settings_window":
+            vc.ensure("initial_window_change.flushes_all_streams", flushed == [("connection",)] and len(bx) == 1 and len(by) == 1)
+        elif kind == "connection_terminated":
+            vc.ensure("terminated.all_buffers_dropped", bx == [] and by == [] and flushed == [])
+        else:
+            vc.ensure("unrelated.nothing_flushed_or_dropped", flushed == [] and len(bx) == 1 and len(by) == 1)
+
+
 # =============================================================================================
 # T2 (bounded)
 
@@ -1007,6 +1351,131 @@ def check_world(b, spec, obs):
         b.fail("flow.one_per_stream", inp, str([f.request.path for f in obs["flows"]]))
 
 
+# ---- flow control: one stream blocked on the peer's window while another one sends trailers / ends --------------------
+BIG = 70000  # > the initial HTTP/2 window of 65535
+
+
+def run_flow_world(direction, wide_conn_window, big_first, big_trailers, small_len, small_trailers, chunk):
+    """direction 'response': the server answers /big with a 70000-byte body and /small with a short one, the client peer reads
+    (and thereby grants credit) only after both answers were handed to mitmproxy. direction 'request': the client uploads the
+    two bodies, the server peer withholds credit until both requests were handed over. Returns {tag: (want, got)}."""
+    from props.C06 import h2_message
+    w = H2World(None)
+    try:
+        cp = w.cp
+        if wide_conn_window and direction == "response":
+            cp.h2.increment_flow_control_window(1_000_000)   # only the per-stream window can block
+            cp.flush()
+        bodies = {"big": b"B" * BIG, "small": b"s" * small_len}
+        trailers = {"big": [(b"x-trailer", b"big")] if big_trailers else None, "small": [(b"x-trailer", b"small")] if small_trailers else None}
+        order = ["big", "small"] if big_first else ["small", "big"]
+        sids = {}
+
+        def send_msg(h2c, sid, head, tag, relieve=None):
+            body, tr = bodies[tag], trailers[tag]
+            h2c.send_headers(sid, head, end_stream=not body and not tr)
+            pos = 0
+            while pos < len(body):
+                n = min(chunk, len(body) - pos, h2c.local_flow_control_window(sid), h2c.max_outbound_frame_size)
+                if n <= 0 and relieve is not None:
+                    relieve()
+                    n = min(chunk, len(body) - pos, h2c.local_flow_control_window(sid), h2c.max_outbound_frame_size)
+                if n <= 0:
+                    raise RuntimeError("test peer itself blocked on flow control")
+                h2c.send_data(sid, body[pos:pos + n], end_stream=(pos + n == len(body) and not tr))
+                pos += n
+            if tr:
+                h2c.send_headers(sid, tr, end_stream=True)
+
+        if direction == "response":
+            for tag in ("big", "small"):
+                sid = w.next_sid
+                w.next_sid += 2
+                sids[tag] = sid
+                cp.h2.send_headers(sid, [(b":method", b"GET"), (b":scheme", b"https"), (b":authority", b"a.test"), (b":path", b"/" + tag.encode()), (b"x-id", tag.encode())], end_stream=True)
+            cp.flush()
+            w.pump_server()
+            w.pump_server()
+            up = {dict(w.server_request(u)["headers"])[b"x-id"].decode(): u for u in w.server_seen}
+            for tag in order:
+                send_msg(w.sp.h2, up[tag], [(b":status", b"200"), (b"x-for", tag.encode())], tag)
+                w.sp.flush()
+                w.pump_server()
+            # only now does the client read and hand out credit
+            for _ in range(200):
+                new = cp.pump()
+                cp.flush()
+                w.pump_server()
+                if not new:
+                    break
+            got = {tag: h2_message(cp.events, sids[tag], False) for tag in sids}
+            err = cp.error
+        else:
+            # the upstream connection and the server's SETTINGS must exist before the uploads: a first small exchange
+            cp.h2.send_headers(w.next_sid, [(b":method", b"GET"), (b":scheme", b"https"), (b":authority", b"a.test"), (b":path", b"/warmup"), (b"x-id", b"warmup")], end_stream=True)
+            w.next_sid += 2
+            cp.flush()
+            w.pump_server()
+            w.pump_server()
+            cp.pump()
+            cp.flush()
+            w.sp.auto_ack = False
+            if wide_conn_window:
+                w.sp.h2.increment_flow_control_window(1_000_000)
+                w.sp.flush()
+            for tag in order:
+                sid = w.next_sid
+                w.next_sid += 2
+                sids[tag] = sid
+                send_msg(cp.h2, sid, [(b":method", b"POST"), (b":scheme", b"https"), (b":authority", b"a.test"), (b":path", b"/" + tag.encode()), (b"x-id", tag.encode())], tag,
+                         relieve=lambda: (cp.flush(), cp.pump(), cp.flush()))
+                cp.flush()
+                cp.pump()
+                cp.flush()
+            for _ in range(200):
+                new = w.pump_server()
+                w.sp.grant_credit()
+                w.sp.flush()
+                if not new:
+                    break
+            up = {}
+            for u in w.server_seen:
+                hd = dict(w.server_request(u)["headers"] or [])
+                up[hd.get(b"x-id", b"?").decode()] = u
+            got = {tag: (w.server_request(up[tag]) if tag in up else dict(headers=None, body=b"", trailers=None, ended=False, reset=None)) for tag in sids}
+            err = w.sp.error
+        return {tag: (dict(body=bodies[tag], trailers=trailers[tag]), got[tag]) for tag in sids}, err
+    finally:
+        w.close()
+
+
+def check_flow_world(b, params):
+    keys = ("direction", "wide_conn_window", "big_first", "big_trailers", "small_len", "small_trailers", "chunk")
+    inp = dict(zip(keys, params))
+    inp["kind"] = "flow-control"
+    try:
+        res, err = run_flow_world(*params)
+    except Exception as e:
+        import traceback
+        b.fail("flow.no_crash", inp, f"{type(e).__name__}: {e} {traceback.format_exc()[-600:]}")
+        return
+    if err is not None:
+        b.fail("flow.peer_accepts_the_frames", inp, repr(err))
+    for tag, (want, got) in res.items():
+        if got["headers"] is None:
+            b.fail("flow.message_of_each_stream_arrives", inp, f"/{tag}: nothing arrived")
+            continue
+        hd = dict(got["headers"])
+        if hd.get(b"x-for", hd.get(b"x-id")) != tag.encode():
+            b.fail("flow.headers_of_own_stream", inp, f"/{tag}: {got['headers']}")
+        if got["body"] != want["body"]:
+            b.fail("flow.whole_body_of_own_stream_in_order", inp, f"/{tag}: {len(got['body'])} bytes (first difference at {next((i for i, (x, y) in enumerate(zip(got['body'], want['body'])) if x != y), min(len(got['body']), len(want['body'])))}), expected {len(want['body'])}")
+        if (got["trailers"] or None) != want["trailers"]:
+            b.fail("flow.trailers_of_own_stream_not_held_back_by_other_streams", inp, f"/{tag}: trailers {got['trailers']}, expected {want['trailers']}")
+        if not got["ended"] or got["reset"] is not None:
+            b.fail("flow.every_stream_ends", inp, f"/{tag}: ended={got['ended']} reset={got['reset']}")
+
+
 def bounded(tier, seed):
     import itertools
     import random
@@ -1020,7 +1489,7 @@ def bounded(tier, seed):
               "upstream stream, flow and client stream belongs to one request, no request lost or duplicated, queued streams open in arrival "
               "order, the limit announced by the server is never exceeded (hyper-h2 server peer + explicit count). distinct = the whole "
               "schedule; non-trivial = at least 2 concurrent streams")
-    b.bound = "<= 3 concurrent streams + 1 blocker, <= 8 client frames per schedule, <= 3 cuts; one upstream connection; bodies <= 20 bytes (flow-control buffering of BufferedH2Connection not exercised)"
+    b.bound = "<= 3 concurrent streams + 1 blocker, <= 8 client frames per schedule, <= 3 cuts; one upstream connection; bodies <= 20 bytes in the interleaving schedules; flow-control schedules: 2 streams, one body of 70000 bytes"
     names = list(CLIENT_SEQS)
     specs = []
     combos = []
@@ -1053,4 +1522,9 @@ def bounded(tier, seed):
             b.fail("h2.no_crash", {k: str(v) for k, v in spec.items()}, f"{type(e).__name__}: {e} {traceback.format_exc()[-700:]}")
             continue
         check_world(b, spec, obs)
+    # flow control: a stream blocked on the peer's window must not hold back another stream's trailers / end of stream
+    chunks = (10000, 16384) if tier == "quick" else (1000, 10000, 16384)
+    for params in itertools.product(("response", "request"), (False, True), (True, False), (False, True), (0, 5), (False, True), chunks):
+        b.case(("flow",) + params, nontrivial=True)
+        check_flow_world(b, params)
     return b
